@@ -41,6 +41,7 @@ import json
 import re
 
 from falcon.routing.compiled import CompiledRouter, UnacceptableRouteError
+from falcon.routing.converters import PathConverter
 
 from models.router_walk import LIT, MULTI, SINGLE, Node, Tree, Unspecified, freeze
 
@@ -122,12 +123,27 @@ class Res(object):
         return 'R%d' % self.n
 
 
+class SafePath(PathConverter):
+    """A path-like (multi-segment) converter that can veto: what an application writes to keep
+    '..' or other unwanted remainders away from a catch-all route."""
+
+    def convert(self, value):
+        rest = '/'.join(value)
+        return None if 'zz' in rest else rest
+
+
+def new_router():
+    r = CompiledRouter()
+    r.options.converters['safepath'] = SafePath
+    return r
+
+
 class St(object):
     def __init__(self, ctx, mode):
         self.ctx = ctx
         self.mode = mode
-        self.sut = CompiledRouter()
-        self.inc = CompiledRouter()   # fed accepted templates only, incrementally
+        self.sut = new_router()
+        self.inc = new_router()   # fed accepted templates only, incrementally
         self.inc_dirty = False
         self.fresh = None             # accepted templates only, rebuilt from scratch
         self.accepted = []            # [(template, resource)]
@@ -172,7 +188,7 @@ def gen_seg(ch, st, level, last, alt_den=4):
     if kind == 2:
         return '{%s:%s}' % (name, ch.choice(CONVS, 'conv'))
     if kind == 4:
-        return '{%s:path}' % name
+        return '{%s:%s}' % (name, 'safepath' if ch.draw(3, 'vetoing_path_converter') == 2 else 'path')
     shape = ch.draw(10 if st.quotes else 8, 'shape')
     sep = ch.choice(SEPS, 'sep')
     n, b, c = name, name + 'b', name + 'c'
@@ -394,7 +410,7 @@ def build(accepted, rejected=()):
     """Router fed the accepted templates (plain add_route, in order) plus the
     given rejected add_routes at the places where they happened.  -> router, or
     None if one of the accepted templates is refused."""
-    r = CompiledRouter()
+    r = new_router()
     for i in range(len(accepted) + 1):
         for rj in rejected:
             if rj['at'] == i:
@@ -611,7 +627,7 @@ def misuse_index(st, raws):
     """Index of the first segment that misuses a path converter (not last, or
     inside a multi-field segment); None if there is none."""
     for i, raw in enumerate(raws):
-        if ':path' in raw:
+        if ':path' in raw or ':safepath' in raw:
             n = st.node(raw)
             if i < len(raws) - 1 or n is None or n.kind == MULTI:
                 return i
